@@ -502,12 +502,34 @@ def _unspec2(shape):
     return out
 
 
+def buffer_types(ctx):
+    """a `double[:]` buffer local accepts float64 arrays only (anything else raises `Buffer dtype mismatch` before the list is built): the cell attributes bound to
+    such locals are float64 whatever the caller gave the cell (whole-number origin, integer vectors), decided from how the Box class stores them"""
+    from .. import dtypeflow
+    fn = ctx.fn(NL, 'nlist')
+    table = dtypeflow.class_attr_types(ctx.fn('atomman/core/Box.py', 'Box'))
+    n = 0
+    for s in ast.walk(fn):
+        if isinstance(s, ast.Assign) and getattr(s, '_ctype', None) in ('memoryview', 'const memoryview') and getattr(s, '_cbase', None) == 'double' and isinstance(s.value, ast.Attribute):
+            path = norm(s.value)
+            if not path.startswith('system.box.'):
+                continue
+            n += 1
+            t = table.get('self.' + s.value.attr)
+            ctx.need(t is not None, 'Box has no attribute or property %s' % s.value.attr)
+            other = [a for a in t if a != dtypeflow.FLOAT]
+            ctx.ob('BUFFER-TYPES', NL + '::nlist', 'the double buffer `%s` is bound to %s, which the Box class keeps as float64 whatever the caller supplied' % (norm(s.targets[0]), path), not other,
+                   'Box.%s may have: %s' % (s.value.attr, dtypeflow.describe(t)), node=s, key='buffer types ' + path)
+    ctx.floor('BUFFER-TYPES/nlist', n, 2)
+
+
 def run(ctx):
     _cache.clear()
     ctx.explanation = ('C03: nlist.pyx is read through Cython\'s parser; reaching definitions decide that the swept bins are the populated bins; stencil, superbox, ghost acceptance, '
                        'membership test, sorted symmetric insertion and storage growth are structural/affine obligations on the lowered tree; NeighborList view layout and writer/reader agreement. '
                        'Not decided: the pair set of a concrete configuration (needs distances).')
     from .c02 import minfold, DM
-    from .. import readonly
+    from .. import readonly, lints
     ctx.run_rules([lambda c: sweep_fill(c) and None, stencil, geometry, membership, insertion, neighborlist,
-                   lambda c: minfold(c, DM, 'dmag2_c', False), lambda c: readonly.rule(c, NL, floor=5) and None])
+                   lambda c: minfold(c, DM, 'dmag2_c', False), lambda c: readonly.rule(c, NL, floor=5) and None,
+                   lambda c: lints.c_double(c, 'C-DOUBLE', NL, floor=18), buffer_types])
